@@ -733,6 +733,25 @@ def fam_C03(rng, tier):
         s.add('CONNECT cid=63')
         s.feed(ck, c)
         out.append(s.script())
+    # the connection ends (end of stream / read error) with 0, 1, 2, 5 or 600 bytes of an unfinished packet buffered; the same
+    # Context then gets a new transport: framing starts afresh, whatever was left over
+    big = m.publish(b'a', b'z' * 700, 0, None, 0, 0, [])
+    for how in ('eof', 'err'):
+        for k in (0, 1, 2, 5, 600):
+            s = Sess(f'c03-reconn-{how}#{"whole" if k == 0 else "left%d" % k}')
+            op, sid = stream_prefix(s)
+            s.feed(m.publish(b'a', b'x', 0, None, 0, 0, [(11, sid)]))
+            if k:
+                s.feed(big[:k])
+            s.add('FEEDEOF' if how == 'eof' else 'FEEDERR')
+            s.add('SETUP')
+            s.add('CONNECT cid=63')
+            s.feed(m.connack(0, 0, []))
+            s.add('RUN')
+            s.ping()
+            s.feed(m.pingresp())
+            s.feed(m.publish(b'a', b'y', 1, 4, 0, 0, []))
+            out.append(s.script())
     return out
 
 
@@ -1863,6 +1882,33 @@ def fam_C09(rng, tier):
     out += fam_walk(rng, tier, 'c09-walk', 30 if tier == 'quick' else 1000, 60,
                     weights=dict(pub0=0, pub1=1, pub2=0, sub=2, unsub=0, ping=0, ack=3, inbound=10, pubrel=6, stream=3),
                     subid_modes=['reg'], recv_max=lambda r: r.choice([None, None, 1, 2]))
+    # an inbound QoS 2 exchange open when the connection is lost; the same Context connects again (session kept: no expiry was
+    # recorded) and the broker re-delivers before its PUBREL: not yielded again
+    for how in ('eof', 'err', 'sdisc', 'dropfut'):
+        for dup in (0, 1):
+            s = Sess(f'c09-reconnect-{how}-{dup}')
+            s.connect()
+            op, sid = s.subscribed_stream()
+            s.feed(m.publish(b'a', b'first', 2, 7, 0, 0, [(11, sid)]))
+            s.feed(m.publish(b'a', b'other', 2, 8, 0, 0, [(11, sid)]))
+            s.feed(m.ack('pubrel', 8))
+            if how == 'eof':
+                s.add('FEEDEOF')
+            elif how == 'err':
+                s.add('FEEDERR')
+            elif how == 'sdisc':
+                s.feed(m.disconnect(0x8b))
+            else:
+                s.add('DROPFUT')
+            s.add('SETUP')
+            s.add('CONNECT cid=63')
+            s.feed(m.connack(1, 0, []))
+            s.add('RUN')
+            s.feed(m.publish(b'a', b'first', 2, 7, dup, 0, [(11, sid)]))
+            s.feed(m.publish(b'a', b'other-again', 2, 8, 0, 0, [(11, sid)]))
+            s.feed(m.ack('pubrel', 7))
+            s.feed(m.publish(b'a', b'new', 2, 7, 0, 0, [(11, sid)]))
+            out.append(s.script())
     # MANY inbound QoS 2 exchanges open at once (the Receive Maximum of the CONNACK limits what the CLIENT may send, never what
     # it remembers about the broker's messages): n deliveries, every one re-delivered, all released, delivered again
     for n in ([3, 5, 40] if tier == 'quick' else [2, 3, 5, 17, 40, 300, 1000]):
@@ -2096,6 +2142,22 @@ def fam_C11(rng, tier):
             else:
                 s.feed(m.suback(pid, [0]))
     out.append(s.script())
+    # one operation stays outstanding while exactly 65534 further identifiers are handed out (all the window allows): none of
+    # them may be its identifier
+    s = Sess('c11-window')
+    s.connect()
+    s.add('CLONE h0 h1')
+    o0, p0 = s.publish(1)
+    for i in range(65534):
+        if i % 2:
+            o, p = s.publish(1, 1)
+            s.feed(m.ack('puback', p))
+        else:
+            o, p = s.unsubscribe([b'a'], 0)
+            s.feed(m.unsuback(p, [0]))
+        s.live_ops.pop(o, None)
+    s.feed(m.ack('puback', p0))
+    out.append(s.script())
     # more than 16 384 subscribe() calls on one client: the subscription identifier crosses every width of its Variable Byte
     # Integer that a test can reach (128, 16 384); responses are kept for a while so that old identifiers are still alive
     s = Sess('c11-manysubs')
@@ -2317,6 +2379,8 @@ def fam_C13(rng, tier):
     causes += [('udisc-side', k) for k in range(len(SIDE))]
     # the transport fails exactly while the user's DISCONNECT is being written (after 0..3 of its bytes; CONNECT took 16)
     causes += [('udisc-werr', k) for k in range(4)] + [('udisc-wzero', k) for k in range(4)]
+    # the server's DISCONNECT (two-, three- and many-byte forms) behind another packet in the SAME read
+    causes += [('sdisc-after', k) for k in range(6)]
     for cause, r in causes:
         for st in states():
             if tier == 'quick' and cause == 'sdisc' and r not in (0, 0x04, 0x81, 0x8b, 0xa2) and st.__name__ != 'idle':
@@ -2336,6 +2400,13 @@ def fam_C13(rng, tier):
                 s.feed(m.disconnect(r, None, 'reason'))          # e0 01 rc: reason code without a property length
             elif cause == 'sdisc-empty':
                 s.feed(m.disconnect(0, None, 'empty'))
+            elif cause == 'sdisc-after':
+                first = [m.pingresp(), m.publish(b'a', b'x', 0), m.ack('pubrel', 9)][r % 3] if st.__name__ != 'outstanding' else m.ack('puback', 1)
+                if r % 3 == 0 and st.__name__ != 'outstanding':
+                    s.ping()
+                d = [m.disconnect(0, None, 'empty'), m.disconnect(0, None, 'reason'), m.disconnect(0x8b, [(31, b'bye')]),
+                     m.disconnect(0, None, 'empty'), m.disconnect(0x8b, None, 'reason'), m.disconnect(0, [])][r]
+                s.feed(first + d)
             elif cause in ('udisc', 'udisc-side', 'udisc-werr', 'udisc-wzero'):
                 s.disconnect([('r', r if cause == 'udisc' else 0)] + ([('rs', b'bye')] if cause.startswith('udisc-w') else []))
                 s.publish(0)         # must not be written after the DISCONNECT
@@ -2494,6 +2565,34 @@ def fam_C14(rng, tier):
             for o in range(1, 8):
                 s.add(f'POLL op{o}')
             s.add('POLL st3')
+            out.append(s.script())
+    # the context has taken the request off the queue and is in the middle of writing it (the transport answers Pending, or
+    # fails) when the Context is dropped: the operation was pending at the drop, so it fails with ContextExited
+    for kind in ['pub0', 'pub1', 'pub2', 'sub', 'unsub', 'ping', 'disc']:
+        for how in ('stall', 'stallone', 'werr'):
+            cfg = {'stall': 'wr=pend', 'stallone': 'wr=pendone', 'werr': 'werr=18'}[how]
+            # (the model hands whole packets to the transport: a write suspended half way is outside it — those two variants are
+            # 'big-' scripts, judged by the oracle alone like the multi-thread scripts of C11)
+            s = Sess(('big-' if how != 'werr' else '') + f'c14-midwrite-{kind}-{how}', cfg)
+            s.connect()
+            s.add('HOLD ctx')
+            if kind.startswith('pub'):
+                o, _ = s.publish(int(kind[3]), fields=[('p', b'payload')])
+            elif kind == 'sub':
+                o, _, _ = s.subscribe()
+            elif kind == 'unsub':
+                o, _ = s.unsubscribe()
+            elif kind == 'ping':
+                o = s.ping()
+            else:
+                o = s.disconnect([('r', 0)])
+            s.add(f'HOLD op{o}')
+            s.add('POLL ctx')          # one poll: takes the request, starts the write, Pending (or the error)
+            if how == 'stallone':
+                s.add('POLL ctx')
+                s.add('POLL ctx')      # a few bytes are out, not the packet
+            s.add('DROPCTX')
+            s.add(f'RELEASE op{o}')
             out.append(s.script())
     # limits announced by the broker (Maximum Packet Size, an exhausted Receive Maximum) mean nothing once the context is gone:
     # every operation started afterwards fails with ContextExited whatever its size or kind
@@ -2862,7 +2961,9 @@ def fam_C17(rng, tier):
                 continue
             s = Sess(f'c17-{upto}-{sei}-{ago}-{i}')
             i += 1
-            s.connect([('cid', b'c')] + ([('sei', sei)] if sei is not None else []))
+            via = i % 4 == 3          # (every fourth history through extended authentication: the CONNACK arrives in authorize())
+            cf = [('cid', b'c')] + ([('sei', sei)] if sei is not None else [])
+            s.connect(cf, via_auth=via)
             hist(s, upto)
             # the connection ends: lost (end of stream / read error), closed by the broker, closed by the APPLICATION with
             # exchanges still unfinished, or run() cancelled — the session state is the same in every case
@@ -2879,10 +2980,9 @@ def fam_C17(rng, tier):
                 s.add('DROPFUT')
             s.add('SNAP')
             s.add(f'MARKDISC {ago}')
-            s.add('SETUP')
-            s.add('CONNECT ' + m.kvs([('cid', b'c')] + ([('sei', sei)] if sei is not None else [])))
-            s.feed(m.connack(1, 0, []))
-            s.add('RUN')
+            x, Sess.EXTRA_RNG = Sess.EXTRA_RNG, None
+            s.connect(cf, via_auth=via, sp=1)
+            Sess.EXTRA_RNG = x
             # acknowledgements on the new connection complete the original futures
             for pid in [1, 3]:
                 s.feed(m.ack('puback', pid))
@@ -2894,10 +2994,9 @@ def fam_C17(rng, tier):
             s.add('FEEDEOF')
             s.add('SNAP')
             s.add(f'MARKDISC {min(ago, 2)}')
-            s.add('SETUP')
-            s.add('CONNECT ' + m.kvs([('cid', b'c')] + ([('sei', sei)] if sei is not None else [])))
-            s.feed(m.connack(1, 0, []))
-            s.add('RUN')
+            x, Sess.EXTRA_RNG = Sess.EXTRA_RNG, None
+            s.connect(cf, via_auth=via, sp=1)
+            Sess.EXTRA_RNG = x
             s.feed(m.ack('puback', 6))
             s.add('DROPFUT')
             s.add('SNAP')
@@ -2958,18 +3057,30 @@ ACTOR = ['C05', 'C06', 'C07', 'C08', 'C09', 'C10', 'C12', 'C13', 'C14', 'C15', '
 REACT = ('REACT',)
 
 
-def broker_replies(raw):
-    """what a conformant broker answers to one client packet (None: nothing)"""
+def broker_replies(raw, state=None):
+    """what a conformant broker answers to one client packet (None: nothing). With a state dict the broker refuses every second
+    QoS>0 publish it receives (reasons 0x80, 0x97, 0x80, 0x87 in turn) and answers a PUBREL for an exchange it has refused / never seen with PUBCOMP 0x92."""
     from . import wire
     pk = wire.try_client(raw)
     if pk is None:
         return None
     t = pk['type']
+    bad = None
+    if state is not None and t == 3 and pk['qos'] > 0 and not pk.get('dup'):
+        state['n'] = state.get('n', 0) + 1
+        if state['n'] % 2 == 0:
+            bad = [0x80, 0x97, 0x80, 0x87][(state['n'] // 2 - 1) % 4]
     if t == 3 and pk['qos'] == 1:
-        return m.ack('puback', pk['pid'])
+        return m.ack('puback', pk['pid'], bad)
     if t == 3 and pk['qos'] == 2:
-        return m.ack('pubrec', pk['pid'])
+        if state is not None:
+            (state['failed'].add if bad else state['open'].add)(pk['pid'])
+        return m.ack('pubrec', pk['pid'], bad)
     if t == 6:
+        if state is not None and pk['pid'] not in state['open']:
+            return m.ack('pubcomp', pk['pid'], 0x92)
+        if state is not None:
+            state['open'].discard(pk['pid'])
         return m.ack('pubcomp', pk['pid'])
     if t == 5 and pk.get('reason', 0) < 0x80:
         return m.ack('pubrel', pk['pid'])          # the broker's own QoS 2 message: PUBREC received, PUBREL sent
@@ -2994,7 +3105,8 @@ def expand_reactive(scenarios, runner, max_rounds=12):
     unanswered — found by running the implementation on the script built up to that point. The resulting scripts are then
     ordinary scripts (run by the model, compared, judged); on a tree where model and implementation agree they are the
     scripts a static generator would have written."""
-    st = {n: dict(lines=[], items=list(items), answered=0) for n, items in scenarios}
+    st = {n: dict(lines=[], items=list(items), answered=0, broker=(dict(failed=set(), open=set()) if n.endswith('-refusing') else None))
+          for n, items in scenarios}
     for _ in range(max_rounds):
         waiting = []
         for n, d in st.items():
@@ -3010,7 +3122,7 @@ def expand_reactive(scenarios, runner, max_rounds=12):
             d = st[n]
             ws = [bytes.fromhex(o.split(' ')[1]) for _, obs in tr.get(n, []) for o in obs if o.startswith('W ')]
             for raw in ws[d['answered']:]:
-                r = broker_replies(raw)
+                r = broker_replies(raw, d['broker'])
                 if r is not None:
                     d['lines'].append(m.feed(r))
             d['answered'] = len(ws)
@@ -3076,7 +3188,20 @@ def reactive_scenarios(rng, tier, prefix):
                 if o in live:
                     inpid += 1
                     items += [f'STREAM {o}', m.feed(m.publish(b'a', b'for-' + str(nsub).encode(), 1, inpid, 0, 0, [(11, nsub)])), REACT]
-        out.append((f'{prefix}-react-{i}', items))
+        out.append((f'{prefix}-react-{i}' + ('-refusing' if i % 2 else ''), items))
+    # a small Receive Maximum and a broker that refuses every second publish: after every round of answers exactly R further
+    # publishes are accepted, however the refusals and the stray PUBRELs of a confused client are answered
+    for R in (1, 2, 3):
+        for order in (0, 1, 2):
+            items = ['SETUP', 'CONNECT cid=63', m.feed(m.connack(0, 0, [(33, R)])), 'RUN', 'CLONE h0 h1']
+            op = 0
+            for rnd in range(5):
+                for j in range(R + 1):
+                    op += 1
+                    q = [2, 1, 2][(j + order + rnd) % 3]
+                    items.append(f'OP {op} h{j % 2} PUBLISH q={q} t=61 p=78')
+                items += [REACT, REACT, REACT]
+            out.append((f'{prefix}-react-quota-{R}-{order}-refusing', items))
     # the plain late-poll cases, every kind
     for kind in ('pub1', 'pub2', 'sub', 'unsub', 'ping'):
         for others in (0, 2):
